@@ -12,7 +12,7 @@ EXTENDS Node, Json, IOUtils, SequencesExt
 
 Runs == ndJsonDeserialize(IOEnv.CN_RUNS)
 K == [atomicAllowlist |-> IOEnv.ND_ATOMIC_ALLOWLIST = "true"]
-Abs(p) == [allow |-> ToSet(p.allow), inv |-> ToSet(p.inv), mark |-> p.mark, chans |-> ToSet(p.chans)]
+Abs(p) == [allow |-> ToSet(p.allow), inv |-> ToSet(p.inv), mark |-> p.mark, chans |-> ToSet(p.chans), fee |-> p.fee]
 
 Same(r, q) == r.ra = q.ra /\ r.rb = q.rb /\ Abs(r.post) = Abs(q.post)
 LinImpl(r) == Same(r, r.sab) \/ Same(r, r.sba)
